@@ -12,3 +12,5 @@ cargo build --offline --release -p blsim 2>&1 | tail -n 3
 cargo build --offline --profile checked -p blsim 2>&1 | tail -n 3
 "$CARGO_TARGET_DIR/release/blsim" selftest || exit 2
 "$CARGO_TARGET_DIR/checked/blsim" selftest || exit 2
+# determinism proof on a sample: same seeds, 1 and 16 worker threads, four separate processes
+"$CARGO_TARGET_DIR/release/blsim" determinism C08 C10 C13 || exit 2
